@@ -21,7 +21,8 @@ RULE = ("a die WxH (lattice sizes, dyadic and decimal units) with 2-7 modules: s
         "centres on the border and in the corners), fixed (disjoint rectangles accepted by Die), terminals with centres inside "
         "or on the border; nets of arity 2-5 with weights.  layout: fruchterman_reingold_layout(die, kappa in [0.1, 3], max_iter "
         "0..25): fixed modules have not moved (1e-9 x die size), every centre finite and inside the die, nothing but centres "
-        "changed, and the same call on a deep copy gives bit-identical centres.  bestof: force_algorithm(max_iter 1..8): the "
+        "changed, the wire length the result reports is the one of its centres (also when the caller read it before), and the same call "
+        "on a deep copy gives bit-identical centres.  bestof: force_algorithm(max_iter 1..8): the "
         "returned layout is one of the twelve layouts of kappa 0.4..1.5 and its cost (sum over ordered pairs of the mpmath lens "
         "area + wire length / 2) is minimal among them up to the accuracy C17 grants the tool's own disc formula.  "
         "non-trivial = >= 1 fixed and >= 2 movable modules and >= 1 net (layout); two kappas with costs differing by > 1e-3 "
